@@ -118,6 +118,16 @@ impl ExponentialFamily {
         }
     }
 
+    /// Deviance with observation weights: the sum of `weights[i]` times the unit deviance of
+    /// observation `i` (equal to `deviance` when all weights are 1).
+    pub fn weighted_deviance(&self, y: &[f64], mu: &[f64], weights: &[f64]) -> f64 {
+        assert_eq!(y.len(), mu.len());
+        assert_eq!(y.len(), weights.len());
+        (0..y.len())
+            .map(|i| weights[i] * self.deviance(&y[i..=i], &mu[i..=i]))
+            .sum()
+    }
+
     pub fn initial_working_response(&self, y: &[f64]) -> Option<Vector> {
         match self {
             ExponentialFamily::Gaussian => Some(Vector::from(y)),
